@@ -217,13 +217,19 @@ def get_model(
             right_asset.type)
 
         if not assoc:
-            logger.error(
-                'Failed to find ("%s", "%s", "%s", "%s")'
-                'association in language specification!',
+            # The query pairs every relationship from a to b with every
+            # relationship from b to a. If the two assets are linked more
+            # than once (by two associations, or by one reflexive association
+            # in both directions) some of these pairs combine the fields of
+            # different links and match no association, while the pairs that
+            # do belong together are returned as well. Skip the former.
+            logger.debug(
+                'No ("%s", "%s", "%s", "%s") association in the language '
+                'specification, relationships belong to different links.',
                 left_asset.type, right_asset.type,
                 left_field, right_field
             )
-            return None
+            continue
 
         logger.debug('Found "%s" association.', assoc.name)
 
